@@ -108,8 +108,11 @@ def obligations(ctx):
                 bits = {1: 8, 2: 8 if k == 'Gcd' else 5, 3: 3 if k == 'Gcd' else 2}[n] if ctx.tier == 'quick' else {1: 16, 2: 10 if k == 'Gcd' else 6, 3: 4 if k == 'Gcd' else 3}[n]
                 leaves = [Leaf('i64', 'x%d' % i) for i in range(n)]
                 bound = z3.And([z3.And(l.var > -(1 << bits), l.var < (1 << bits)) for l in leaves])
-                obs.append(EvalArm('C11', 'i64', k, (k, list(leaves)), lambda v, k=k, bits=bits: gcd_ref(k, v, bits), oc=oc, assume=bound, label='i64/%s/%d/%s' % (k, n, tag),
-                                   limits={'steps': 4000, 'timeout_ms': 60000}))
+                ob = EvalArm('C11', 'i64', k, (k, list(leaves)), lambda v, k=k, bits=bits: gcd_ref(k, v, bits), oc=oc, assume=bound, label='i64/%s/%d/%s' % (k, n, tag),
+                             limits={'steps': 4000, 'timeout_ms': 60000 if ((1 << (bits + 1)) - 1) ** n > 5000 else 15000})
+                if ((1 << (bits + 1)) - 1) ** n <= 5000:
+                    ob.small_domain = [(l.var, -(1 << bits) + 1, (1 << bits) - 1) for l in leaves]      # fallback when the query over the whole box is not decided
+                obs.append(ob)
     return obs
 
 
